@@ -336,7 +336,8 @@ func (e *vrdEnv) built(c vrdCfg) *RegProcessor {
 	os.Setenv("PHANTOM_SUBNET_LOCATION", filepath.Join(e.dir, "phantoms_false.toml"))
 	var b *RegProcessor
 	var err error
-	for try := 0; try < 50; try++ {
+	var errs []string
+	for try := 0; try < 150; try++ { // patient: on a machine loaded several times over, libzmq's reaper needs seconds to release the endpoint
 		port := uint16(20000 + (os.Getpid()*7+len(vrdBuiltCache)*13+try*101)%30000)
 		if c.Auth {
 			b, err = NewRegProcessor("127.0.0.1", port, e.priv, false, nil, vrdMetrics, c.Enforce, vrdSubnets(c.Subs), excl, vrdPct[c.Pct][0], vrdPct[c.Pct][1])
@@ -346,14 +347,15 @@ func (e *vrdEnv) built(c vrdCfg) *RegProcessor {
 		if err == nil {
 			break
 		}
+		errs = append(errs, fmt.Sprintf("%d:%v", port, err))
 		if c.Auth {
 			zmq.AuthStop() // newRegProcessor leaves the authenticator running when the bind fails
 		}
 		// (the authenticator of the previous registrar lets go of its in-process endpoint a moment after AuthStop returned)
-		time.Sleep(time.Duration(5*(try+1)) * time.Millisecond)
+		time.Sleep(time.Duration(5*(min(try, 49)+1)) * time.Millisecond)
 	}
 	if err != nil {
-		panic(fmt.Sprintf("registrar constructor (auth=%v): %v", c.Auth, err))
+		panic(fmt.Sprintf("registrar constructor (auth=%v): %v; tries: %v", c.Auth, err, append(errs[:3], fmt.Sprint("built so far ", VerifBuiltCount, " cache ", len(vrdBuiltCache)))))
 	}
 	_ = b.Close()
 	if c.Auth {
